@@ -3,5 +3,5 @@ CONSTANTS
   Names = {"a", "h"}
   MaxStmts = 2
   MaxDepth = 2
-INVARIANTS ScopeDepthMatchesNesting BackToGlobal IdsDense Emit
+INVARIANTS ScopeDepthMatchesNesting BackToGlobal IdsDense MSatisfiesR Emit
 CHECK_DEADLOCK FALSE
